@@ -141,7 +141,7 @@ def main(tier, seed):
 
     for k in range(nsch):
         r = rng(seed, "c02/%d" % k)
-        S = enrich(r, G.gen_schema(r, name="dict_%d_%d" % (seed, k), keywordish=(k % 3 == 1), n_ent=r.randint(4, 10)))
+        S = enrich(r, G.gen_schema(r, name="dict_%d_%d" % (seed, k), keywordish=(k % 3 == 1), n_ent=max(r.randint(4, 10), 6 if k % 4 == 3 else 0)))
         if k % 4 == 2 and len(S.entities) >= 4:
             a, b, c, d = [e["name"] for e in S.entities[:3]] + [S.entities[-1]["name"]]
             S.entity(a)["supers"] = []
@@ -151,6 +151,16 @@ def main(tier, seed):
             for e in S.entities:
                 e["supexpr"] = None
                 e["abstract"] = False
+        if k % 4 == 3 and len(S.entities) >= 5:
+            # three and four unrelated direct supertypes
+            ns = [e["name"] for e in S.entities]
+            for e in S.entities:
+                e["supers"] = []
+                e["supexpr"] = None
+                e["abstract"] = False
+            S.entity(ns[-1])["supers"] = ns[:3]
+            if len(ns) >= 6:
+                S.entity(ns[-2])["supers"] = [ns[3], ns[1], ns[0], ns[2]]
         text = G.render(S)
         fexp = os.path.join(wroot, "dict_%d.exp" % k)
         open(fexp, "w").write(text)
